@@ -389,7 +389,7 @@ def h_betting(ctx: Any, code: str, n: int, depth: int, mode: str = 'T', script: 
 def jobs(tier: str, seed: int) -> list[dict]:
     from engine.partition import weak_orders, tri
     out = []
-    B = 450 if tier == 'quick' else 1800
+    B = 450 if tier == 'quick' else 1200
     games = ['NT', 'PO', 'FT', 'F7S']
     mc = ['done', 'probed']
 
@@ -421,8 +421,11 @@ def jobs(tier: str, seed: int) -> list[dict]:
             for k, part in enumerate(weak_orders(['s0', 's1', 's2'])):
                 if code != 'NT':
                     add(f'{code}/n3/d2/T/w{k}', 5, code=code, n=3, depth=2, part=part)
-                add(f'{code}/n3/d3/T/w{k}', 5, code=code, n=3, depth=3, part=part)
+                else:
+                    add(f'{code}/n3/d3/T/w{k}', 5, code=code, n=3, depth=3, part=part)
             for k, part in enumerate([[c] for c in tri('s0', 's1')]):
+                if code not in ('NT', 'FT'):
+                    continue
                 for k0 in range(3):
                     pre = {'d0_bring': bool(k0 % 2)} if C.is_stud(code) else {'d0_k': k0}
                     add(f'{code}/n2/d4/T/p{k}/k{k0}', 5, code=code, n=2, depth=4, part=part, _preset=pre)
